@@ -365,7 +365,26 @@ def rule_r6(p, res):
     r.check("LazyList.init_from_index_callable(lambda x: Image.init_from_channels_at_back(reader[x]), len(reader))" in s, imp, imp.node, "element i of a video lazy list must read frame i of the reader")
 
 
-RULES = [rule_r1, rule_r2, rule_r3, rule_r4, rule_r5, rule_r6]
+def rule_r7(p, res):
+    r = res.rule("C19.R7", "lazily imported sequences stay lazy: the per-frame landmark resolver is only ever deferred (partial / nested function), never called while the list is built")
+    f = p.func("menpo.io.input.base._import_lazylist_attach_landmarks")
+    r.instance(f)
+    res_p = f.params[1]
+    maps = [k for k in calls_in(f.node) if isinstance(k.func, ast.Attribute) and k.func.attr == "map"]
+    need(maps, "C19.R7: the lazy list is no longer extended with .map(...) in %s" % f.short)
+    # calls of the resolver among the function's own statements (nested function bodies run later, when an element is requested)
+    eager = [k for k in calls_in(f.node) if isinstance(k.func, ast.Name) and k.func.id == res_p]
+    for k in eager:
+        r.violation(f, k, "`%s` calls the landmark resolver while the lazy list is being built: importing a video resolves the landmarks of every frame up front, and reading "
+                    "a frame later no longer consults its own resolver" % norm(k)[:60])
+    deferred = [k for k in calls_in(f.node, include_nested=True) if (dotted(k.func) or "") in ("partial", "functools.partial") and k.args and isinstance(k.args[0], ast.Name) and k.args[0].id == res_p]
+    inner = [k for k in calls_in(f.node, include_nested=True) if k not in calls_in(f.node) and isinstance(k.func, ast.Name) and k.func.id == res_p]
+    if not eager:
+        need(deferred or inner, "C19.R7: cannot see where %s defers the landmark resolver" % f.short)
+        r.ok({"function": f.short, "deferred_sites": len(deferred) + len(inner)})
+
+
+RULES = [rule_r1, rule_r2, rule_r3, rule_r4, rule_r5, rule_r6, rule_r7]
 
 WITNESSES = [
     Witness("C19.W1", "menpo/base.py", "LazyList.repeat", "new = self.copy()", "new = self", rule="C19.R2", construct="repeat"),
@@ -385,4 +404,9 @@ WITNESSES = [
     Witness("C19.W9", "menpo/base.py", "LazyList.repeat", "new._callables = list(chain(*zip(*[new._callables] * n)))", "if n > 1:\n        new._callables = list(chain(*zip(*[new._callables] * n)))",
             rule="C19.R2", construct="repeat", note="seeded change R2-C19-C"),
     Witness("C19.T1", "menpo/base.py", "LazyList.copy", "new._callables = list(self._callables)", "new._callables = self._callables[:]", kind="T"),
+]
+
+WITNESSES += [
+    Witness("C19.W10", "menpo/io/input/base.py", "_import_lazylist_attach_landmarks", "lm_resolvers = [partial(landmark_resolver, x.path, i) for i in range(len(x))]", "lm_resolvers = [(lambda d: (lambda: d))(landmark_resolver(x.path, i)) for i in range(len(x))]",
+            rule="C19.R7", construct="_import_lazylist_attach_landmarks", note="seeded change R3-C19-C (resolver called while the list is built)"),
 ]
